@@ -192,6 +192,23 @@ EvDeliverCommit(ev) ==
        /\ obs' = ObsOf(ev, IsStrict(ev.a) => conf)
        /\ UNCHANGED <<vtx, trxu>>
 
+\* a forged copy of the genuine vertex v (same hash and seal, rewritten parents / weight / amount): it is refused by
+\* the first check that applies - known vertex, known transaction, or else the signatures - and changes nothing
+EvDeliverForged(ev) ==
+    LET n == ev.n
+        v == ev.v
+        b == book[n]
+        lb == LBook(ev.st, Ids)
+        front == DeliverFrontGuard(b, v)
+        want == IF front # "pass" THEN front
+                ELSE IF T(v).iss = b.gen THEN "genesisissuer"
+                ELSE IF v \in b.live \cup b.stored THEN "exists"
+                ELSE IF b.index[T(v).id] # NoV THEN "trxexists"
+                ELSE "rejected"
+    IN /\ Adopt(n, ev.st)
+       /\ obs' = ObsOf(ev, ev.res = want /\ Same(b, lb) /\ SameWindow(b, lb))
+       /\ UNCHANGED <<vtx, inflight, trxu>>
+
 \* one turn of the retry loop: pop the head and run the pre-lock checks of addLeafMemorized
 EvTickPop(ev) ==
     LET n == ev.n IN
@@ -324,6 +341,7 @@ TNext ==
          [] ev.a = "Craft"         -> EvCraft(ev)
          [] ev.a = "DeliverPre"    -> EvDeliverPre(ev)
          [] ev.a = "DeliverCommit" -> EvDeliverCommit(ev)
+         [] ev.a = "DeliverForged" -> EvDeliverForged(ev)
          [] ev.a = "TickPop"       -> EvTickPop(ev)
          [] ev.a = "Truncate"      -> EvTruncate(ev)
          [] ev.a = "TruncateCancelled" -> EvTruncateCancelled(ev)
